@@ -573,6 +573,68 @@ var c15FaultMethods = []string{"PushBlob", "PushManifest", "MountBlob", "DeleteB
 	"PushBlobChunked", "PushBlobChunkedResume", "Write", "Commit", "Close", "Cancel"}
 var c15FaultCodes = []string{"NAME_UNKNOWN", "DENIED"}
 
+// c15ReadFault: `uni rfault <member> <code>`: member <member> answers every call with <code> (it holds nothing it will
+// show); the other member is an ocimem holding a blob and a manifest. The four digest-addressed reads through the unifier,
+// under both read policies.
+const c15ReadFaultWant = "seq: ResolveBlob=ok GetBlob=ok ResolveManifest=ok GetManifest=ok | conc: ResolveBlob=ok GetBlob=ok ResolveManifest=ok GetManifest=ok"
+
+func c15ReadFault(member int, code string) string {
+	ctx := context.Background()
+	var ferr error
+	switch code {
+	case "DENIED":
+		ferr = ociregistry.ErrDenied
+	case "UNAUTHORIZED":
+		ferr = ociregistry.ErrUnauthorized
+	case "NAME_UNKNOWN":
+		ferr = ociregistry.ErrNameUnknown
+	case "BLOB_UNKNOWN":
+		ferr = ociregistry.ErrBlobUnknown
+	default:
+		ferr = fmt.Errorf("connection reset")
+	}
+	failing := &ociregistry.Funcs{NewError: func(context.Context, string, string) error { return ferr }}
+	holder := ocimem.New()
+	blob, mf := []byte("rfault-blob"), []byte("rfault manifest")
+	pushBlobOK(holder, "a", blob)
+	if _, err := holder.PushManifest(ctx, "a", "t", mf, mtOpaque); err != nil {
+		return "rfault setup failed: " + err.Error()
+	}
+	var ms [2]ociregistry.Interface
+	ms[member], ms[1-member] = failing, holder
+	var parts []string
+	for _, pol := range []struct {
+		name string
+		p    ociunify.ReadPolicy
+	}{{"seq", ociunify.ReadSequential}, {"conc", ociunify.ReadConcurrent}} {
+		u := ociunify.New(ms[0], ms[1], &ociunify.Options{ReadPolicy: pol.p})
+		res := func(name string, err error, content, want []byte) string {
+			if err != nil {
+				return name + "=err:" + errClass(err)
+			}
+			if want != nil && string(content) != string(want) {
+				return name + "=wrong-content"
+			}
+			return name + "=ok"
+		}
+		read := func(r ociregistry.BlobReader, err error) ([]byte, error) {
+			if err != nil {
+				return nil, err
+			}
+			defer r.Close()
+			return io.ReadAll(r)
+		}
+		bd, md := ociregistry.Digest(sha256Digest(blob)), ociregistry.Digest(sha256Digest(mf))
+		_, e1 := u.ResolveBlob(ctx, "a", bd)
+		c2, e2 := read(u.GetBlob(ctx, "a", bd))
+		_, e3 := u.ResolveManifest(ctx, "a", md)
+		c4, e4 := read(u.GetManifest(ctx, "a", md))
+		parts = append(parts, pol.name+": "+strings.Join([]string{res("ResolveBlob", e1, nil, nil), res("GetBlob", e2, c2, blob),
+			res("ResolveManifest", e3, nil, nil), res("GetManifest", e4, c4, mf)}, " "))
+	}
+	return strings.Join(parts, " | ")
+}
+
 // c15Fault: `uni fault <method> <member> <n> <code>`. Two ocimem members holding the same; a fixed sequence of calls through
 // the unifier that makes at least two calls of <method>; the n-th call of <method> on member <member> fails with <code>.
 // The output is one record per call made on the unifier:
@@ -835,6 +897,11 @@ func (*c15) Impl(c Case) []string {
 					return "bad-op"
 				}
 				return c15Fault(t[2], atoi(t[3]), atoi(t[4]), t[5])
+			case "rfault":
+				if len(t) != 4 || (t[2] != "0" && t[2] != "1") {
+					return "bad-op"
+				}
+				return c15ReadFault(atoi(t[2]), t[3])
 			case "snap":
 				if len(t) != 2 {
 					return "bad-op"
@@ -1374,6 +1441,12 @@ func (*c15) Gen(rng *RNG, tier string) []Case {
 			cases = append(cases, Case{Tag: "chunked:diverge", Lines: []string{fmt.Sprintf("uni diverge %s %d", which, nth)}})
 		}
 	}
+	// 2e. one member refuses every call (denied, unauthorized, a transport error, not-found kinds): what the other holds is readable
+	for member := 0; member < 2; member++ {
+		for _, code := range []string{"DENIED", "UNAUTHORIZED", "NAME_UNKNOWN", "BLOB_UNKNOWN", "PLAIN"} {
+			cases = append(cases, Case{Tag: "rfault", Lines: []string{fmt.Sprintf("uni rfault %d %s", member, code)}})
+		}
+	}
 	// 2d. one member call fails on its own: every mutating method × member × the first or second call × two error codes
 	for _, m := range c15FaultMethods {
 		for member := 0; member < 2; member++ {
@@ -1511,6 +1584,14 @@ func (*c15) Oracle(c Case, impl []string) []Failure {
 		}
 		got := impl[i]
 		t := strings.Split(l, " ")
+		if len(t) == 4 && t[1] == "rfault" {
+			// "digest-addressed content is readable exactly when either member has it ... the sequential and concurrent read
+			// policies give the same results": the other member holds the content, so every read succeeds under both policies
+			if want := c15ReadFaultWant; got != want {
+				fs = append(fs, Failure{Class: "c15-read-not-union:member-fails", Oracle: "read_union_whatever_the_other_member_answers", Index: i, Expected: want, Observed: got})
+			}
+			continue
+		}
 		if len(t) == 6 && t[1] == "fault" && got != "bad-op" && got != "panic" {
 			c15FaultOracle(t, got, func(class, oracle, exp, obs string) {
 				fs = append(fs, Failure{Class: class, Oracle: oracle, Index: i, Expected: exp, Observed: obs})
@@ -1756,6 +1837,9 @@ func (*c15) NonTrivial(c Case, impl []string) (bool, string) {
 	b := c.Tag
 	if b == "" {
 		b = "replay"
+	}
+	if len(c.Lines) == 1 && strings.HasPrefix(c.Lines[0], "uni rfault ") && len(impl) == 1 {
+		return strings.Contains(impl[0], "=ok"), b
 	}
 	if len(c.Lines) == 1 && strings.HasPrefix(c.Lines[0], "uni fault ") && len(impl) == 1 {
 		// a call that failed on one member and one that succeeded on both
